@@ -584,6 +584,197 @@ theorem bare_domain_url_not_flagged (special : Str → Bool) (puny : Str → Str
     simp only [is_shortened_url, should_resolve, hparts, shortenedWith_o]
     exact ⟨congrArg Except.ok hb.1, congrArg Except.ok hb.2⟩
 
+/-! ## end to end, on strings
+
+The congruence theorems above (`noninterference_sites`, `noninterference_shorteners`,
+`homepage_path_only`, `could_be_html_path_only`, `special_host_only`,
+`get_hostname_host_only`, `forms_agree_parsed`) have the form `g u = g u' → f (g u) = f (g u')`:
+they hold because the model DEFINES each predicate as `decision ∘ component ∘ parts`, i.e. they
+certify the shape of the model (which the differential execution ties to the code), not a fact
+about URLs.  The statements about URL *strings* are the ones below: they combine
+`hostname_ignores_decoys` / `path_ignores_authority` (what the `urlsplit` model reads in
+`[userinfo@]host[:port]tail`), `forms_agree` (the four spellings) and the membership
+specifications (`site_pattern_spec`, `trie_match_spec`, `shortened_spec`). -/
+
+/-- the four spellings under which the URL `rest = [userinfo@]host[:port]tail` reaches a
+predicate as a `str`: with `http://`, with `https://`, protocol-relative, and bare (which is
+read as such only when it does not itself start with a protocol, e.g. not `a://…`) -/
+inductive Spelling (rest : Str) : Str → Prop
+  | http : Spelling rest ("http://".toList ++ rest)
+  | https : Spelling rest ("https://".toList ++ rest)
+  | relative : Spelling rest ("//".toList ++ rest)
+  | bare : protoLen rest = none → Spelling rest rest
+
+theorem parts_spelling {rest s : Str} (h : Spelling rest s) :
+    parts s = parts ("http://".toList ++ rest) := by
+  cases h with
+  | http => rfl
+  | https => exact (forms_agree rest).1
+  | relative => exact (forms_agree rest).2.1
+  | bare hb => exact (forms_agree rest).2.2 hb
+
+/-- the hypotheses on the pieces of `[userinfo@]host[:port]tail`: the userinfo is any text
+without `/ ? # [ ]`, TAB, CR, LF (it may hold `@`, `:` and site domains); the host is non-empty
+and additionally holds no `@ : %`; the port holds no `@`; the tail is empty or starts with `/`,
+`?` or `#` (path, query, fragment with ANY text, site domains included) -/
+structure Decoyed (ui : Option Str) (h : Str) (port : Option Str) (tail : Str) : Prop where
+  ui_ok : ∀ u, ui = some u → ∀ c ∈ u, authChar c = true
+  host_ok : ∀ c ∈ h, hostChar c = true
+  host_ne : h ≠ []
+  port_ok : ∀ p, port = some p → ∀ c ∈ p, (authChar c && c != '@') = true
+  tail_ok : TailOK tail
+
+/-- **the parsed hostname of every spelling** is the lower-cased host -/
+theorem hostname_spelling {ui : Option Str} {h : Str} {port : Option Str} {tail s : Str}
+    (hd : Decoyed ui h port tail) (hs : Spelling (authority ui h port ++ tail) s) :
+    get_hostname s = some (lower h) := by
+  have := hostname_ignores_decoys ui h port tail hd.ui_ok hd.host_ok hd.host_ne hd.port_ok hd.tail_ok
+  unfold get_hostname at this ⊢
+  rw [parts_spelling hs]; exact this
+
+theorem host_no_newline {h : Str} (hh : ∀ c ∈ h, hostChar c = true) : '\n' ∉ lower h := by
+  intro hm
+  have hm' := nl_mem_lower.1 hm
+  have := hh _ hm'
+  revert this; decide
+
+/-- **site membership end to end, for every pattern / family pair tied by `SiteTableOK`**:
+for the URL string `s` = any of the four spellings of `[userinfo@]host[:port]tail`,
+`bool(re.search(r, get_hostname(s)))` is true exactly when the lower-cased host is at or under
+(whole labels) one of the family's domain patterns — whatever the userinfo, port, path, query
+and fragment texts -/
+theorem site_end_to_end {r : Re} {P : List DomPat} (hok : SiteTableOK r P = true)
+    {ui : Option Str} {h : Str} {port : Option Str} {tail s : Str}
+    (hd : Decoyed ui h port tail) (hs : Spelling (authority ui h port ++ tail) s) :
+    hostSearch r (get_hostname s) = true ↔ ∃ p ∈ P, UnderPattern p (lower h) := by
+  rw [hostname_spelling hd hs]
+  show pySearch r (lower h) = true ↔ _
+  rw [site_pattern_spec hok (lower h) (host_no_newline hd.host_ok), lower_lower]
+
+/-- **`is_facebook_url` on strings**: true exactly when the host is at or under `facebook.*` /
+`fb.me`, for all four spellings and all decoy texts -/
+theorem is_facebook_url_end_to_end {ui : Option Str} {h : Str} {port : Option Str} {tail s : Str}
+    (hd : Decoyed ui h port tail) (hs : Spelling (authority ui h port ++ tail) s) :
+    is_facebook_url s = true ↔ ∃ p ∈ FACEBOOK_DOMAINS, UnderPattern p (lower h) :=
+  site_end_to_end facebook_table_ok hd hs
+
+/-- **`is_twitter_url` on strings** (`twitter.com`, `x.com`) -/
+theorem is_twitter_url_end_to_end {ui : Option Str} {h : Str} {port : Option Str} {tail s : Str}
+    (hd : Decoyed ui h port tail) (hs : Spelling (authority ui h port ++ tail) s) :
+    is_twitter_url s = true ↔ ∃ p ∈ TWITTER_DOMAINS, UnderPattern p (lower h) :=
+  site_end_to_end twitter_table_ok hd hs
+
+/-- **`is_instagram_url` on strings** -/
+theorem is_instagram_url_end_to_end {ui : Option Str} {h : Str} {port : Option Str} {tail s : Str}
+    (hd : Decoyed ui h port tail) (hs : Spelling (authority ui h port ++ tail) s) :
+    is_instagram_url s = true ↔ ∃ p ∈ INSTAGRAM_DOMAINS, UnderPattern p (lower h) :=
+  site_end_to_end instagram_table_ok hd hs
+
+/-- **`is_telegram_url` on strings** (`t.me`, `telegram.me`, `telegram.org`) -/
+theorem is_telegram_url_end_to_end {ui : Option Str} {h : Str} {port : Option Str} {tail s : Str}
+    (hd : Decoyed ui h port tail) (hs : Spelling (authority ui h port ++ tail) s) :
+    is_telegram_url s = true ↔ ∃ p ∈ TELEGRAM_DOMAINS, UnderPattern p (lower h) :=
+  site_end_to_end telegram_table_ok hd hs
+
+/-- **`is_youtube_url` on strings, for every domain list**: true exactly when the token list of
+a listed domain is a prefix of the host's (whole-label subdomain) -/
+theorem is_youtube_url_end_to_end (special : Str → Bool) (puny : Str → Str) (youtube : List Str)
+    {ui : Option Str} {h : Str} {port : Option Str} {tail s : Str}
+    (hd : Decoyed ui h port tail) (hs : Spelling (authority ui h port ++ tail) s) :
+    is_youtube_url special puny youtube s = true ↔
+      ∃ d ∈ youtube, tokenizeHostname special puny d <+: tokenizeHostname special puny (lower h) := by
+  have hl : lower h ≠ [] := fun e => hd.host_ne (lower_eq_nil.1 e)
+  unfold is_youtube_url
+  rw [youtube_from_hostname]
+  have := hostname_spelling hd hs
+  unfold get_hostname at this
+  rw [this]
+  exact (trie_match_spec special puny youtube (lower h) hl).1
+
+/-- the parsed components of every spelling when the tail is a path (no query / fragment) -/
+theorem parts_spelling_path {ui : Option Str} {h : Str} {port : Option Str} {path s : Str}
+    (hd : Decoyed ui h port path) (hp : PathOK path) (hs : Spelling (authority ui h port ++ path) s) :
+    parts s = some ⟨some (lower h), path⟩ := by
+  have hh := hostname_spelling hd hs
+  have hpath := path_ignores_authority ui h port path hd.ui_ok hd.host_ok hd.port_ok hp
+  rw [← parts_spelling hs] at hpath
+  unfold get_hostname at hh
+  cases hq : parts s with
+  | none => rw [hq] at hpath; exact absurd hpath (by simp)
+  | some q =>
+    rw [hq] at hh hpath
+    simp only [Option.map_some, Option.some.injEq] at hpath
+    obtain ⟨qh, qp⟩ := q
+    simp only at hpath
+    subst hpath
+    simp only [get_hostname_o] at hh
+    cases qh with
+    | none => exact absurd hh (by simp)
+    | some x =>
+      simp only at hh
+      split at hh
+      · exact absurd hh (by simp)
+      · simp only [Option.some.injEq] at hh; subst hh; rfl
+
+/-- **`is_shortened_url` / `should_resolve` on strings, for every domain list**: for any
+spelling of `[userinfo@]host[:port]path`, the answer is `True` exactly when the path is not a
+homepage and either the host is `l.`-prefixed with a one-token path or the host is at or under
+a listed domain (for `should_resolve`: a shortener or an extra domain); never an exception -/
+theorem shortened_end_to_end (special : Str → Bool) (puny : Str → Str)
+    (homes shorteners extra : List Str)
+    {ui : Option Str} {h : Str} {port : Option Str} {path s : Str}
+    (hd : Decoyed ui h port path) (hp : PathOK path) (hs : Spelling (authority ui h port ++ path) s) :
+    (∃ b, is_shortened_url special puny homes shorteners s = .ok b ∧
+      (b = true ↔ is_homepage_path homes path = false ∧
+        (is_l_shortened_domain ⟨some (lower h), path⟩ = true ∨
+          ∃ d ∈ shorteners,
+            tokenizeHostname special puny d <+: tokenizeHostname special puny (lower h)))) ∧
+    (∃ b, should_resolve special puny homes shorteners extra s = .ok b ∧
+      (b = true ↔ is_homepage_path homes path = false ∧
+        (is_l_shortened_domain ⟨some (lower h), path⟩ = true ∨
+          ∃ d ∈ shorteners ++ extra,
+            tokenizeHostname special puny d <+: tokenizeHostname special puny (lower h)))) := by
+  have hl : lower h ≠ [] := fun e => hd.host_ne (lower_eq_nil.1 e)
+  have hparts := parts_spelling_path hd hp hs
+  constructor
+  · refine ⟨_, by simp only [is_shortened_url, hparts, shortenedWith_o]; rfl, ?_⟩
+    exact shortened_spec special puny homes shorteners (lower h) path hl
+  · refine ⟨_, by simp only [should_resolve, hparts, shortenedWith_o]; rfl, ?_⟩
+    exact should_resolve_spec special puny homes shorteners extra (lower h) path hl
+
+/-- **a bare domain is flagged by neither, in all four spellings**: `[userinfo@]host[:port]`
+and the same followed by `/`, given with `http://`, `https://`, `//` or bare -/
+theorem bare_domain_spellings_not_flagged (special : Str → Bool) (puny : Str → Str)
+    (homes : List Str) (hhome : homes.contains [] = true) (shorteners extra : List Str)
+    (ui : Option Str) (h : Str) (port : Option Str) (tail s : Str)
+    (hui : ∀ u, ui = some u → ∀ c ∈ u, authChar c = true)
+    (hh : ∀ c ∈ h, hostChar c = true)
+    (hport : ∀ p, port = some p → ∀ c ∈ p, (authChar c && c != '@') = true)
+    (ht : tail = [] ∨ tail = ['/']) (hs : Spelling (authority ui h port ++ tail) s) :
+    is_shortened_url special puny homes shorteners s = .ok false ∧
+    should_resolve special puny homes shorteners extra s = .ok false := by
+  have := bare_domain_url_not_flagged special puny homes hhome shorteners extra ui h port tail
+    hui hh hport ht
+  unfold is_shortened_url should_resolve at this ⊢
+  rw [parts_spelling hs]; exact this
+
+/-- non-vacuity of the end-to-end theorems: the hypotheses hold of a URL with site domains in
+the userinfo, the path, the query and the fragment; all four spellings apply (the bare one
+because `u:p@…` does not start with a protocol) -/
+example :
+    Decoyed (some "twitter.com:x.facebook.com".toList) "WWW.Evil.COM".toList (some "80".toList)
+      "/@t.me/facebook.com?u=bit.ly#youtube.com".toList ∧
+    protoLen (authority (some "twitter.com:x.facebook.com".toList) "WWW.Evil.COM".toList (some "80".toList)
+      ++ "/@t.me/facebook.com?u=bit.ly#youtube.com".toList) = none ∧
+    authority (some "twitter.com:x.facebook.com".toList) "WWW.Evil.COM".toList (some "80".toList)
+      = "twitter.com:x.facebook.com@WWW.Evil.COM:80".toList := by
+  refine ⟨⟨?_, by decide, by decide, ?_, Or.inr ⟨'/', _, rfl, rfl⟩⟩, by decide, by decide⟩
+  · intro u hu; cases hu; decide
+  · intro p hp; cases hp; decide
+
+example : is_twitter_url "//u@Mobile.X.com:443?x=facebook.com".toList = true ∧
+    is_twitter_url "https://twitter.com.evil.fr/x.com".toList = false := by decide
+
 /-- non-vacuity of the decoy theorem's hypotheses, and the forms on a concrete URL -/
 example :
     (∀ c ∈ "a@twitter.com:x.facebook.com".toList, authChar c = true) ∧
